@@ -1,1 +1,15 @@
 import SwcVerif.Props.C14
+#print axioms C14.tree_volume_eq_sum
+#print axioms C14.level1_every_tree
+#print axioms C14.level2_every_tree
+#print axioms C14.level3_every_tree
+#print axioms C14.level5_every_tree
+#print axioms C14.node_level1
+#print axioms C14.node_level2
+#print axioms C14.node_level3
+#print axioms C14.node_level5
+#print axioms C14.chain_union
+#print axioms C14.chain_hyps_of_pairwise
+#print axioms C14.sum_chainRose
+#print axioms C14.chain_volume_is_union
+#print axioms C14.lens_inside_frustum
